@@ -698,7 +698,7 @@ fn replay_file(p: &Path, verbose: bool) -> i32 {
             match exotic::check(ty, &syms, sh) {
                 Some((exp, obs)) => {
                     if verbose {
-                        println!("reproduced property=C10 class=exotic-token-type\n token type={} shape={} length={}\n expected={}\n observed={}", exotic::TYPE_NAMES[ty as usize % 7], sh, syms.len(), exp, obs);
+                        println!("reproduced property=C10 class=exotic-token-type\n token type={} shape={} length={}\n expected={}\n observed={}", exotic::TYPE_NAMES[ty as usize % 8], sh, syms.len(), exp, obs);
                     }
                     1
                 }
